@@ -70,10 +70,11 @@ func (s xScript) prefix(failAt int) int {
 }
 
 const (
-	bankFrom  = 5
-	bankTo    = 6
-	bankDenom = ibctesting.SecondaryDenom
+	bankFrom = 5
+	bankTo   = 6
 )
+
+var bankDenom = ibctesting.SecondaryDenom
 
 // cbEvent is one receive-callback invocation seen by the pktd callbacks.
 type cbEvent struct {
